@@ -460,7 +460,7 @@ class Check:
               'coverage': cov, 'assumptions': self.assumptions, 'wall_s': round(wall, 2),
               'violations': (len(self.failures) if self.failures else (1 if broken else 0))}
         # a debugging run without the Lean build is not a record of the check: it never replaces the evidence file
-        evdir = os.path.join(ROOT, 'replays', 'debug-evidence') if getattr(self, 'no_lean', False) else os.path.join(ROOT, 'evidence')
+        evdir = os.path.join(ROOT, 'replays', 'debug-evidence') if getattr(self, 'no_lean', False) else os.environ.get('VERIF_EVIDENCE_DIR') or os.path.join(ROOT, 'evidence')
         os.makedirs(evdir, exist_ok=True)
         tmp = os.path.join(evdir, '%s.json.tmp' % self.id)
         with open(tmp, 'w') as f:
